@@ -393,6 +393,15 @@ def handleObj (st : DState) (parts : List String) : Option (DState × String) :=
           | _ => some (st, "M=" ++ hexOrDash bytes ++ "/-/err" ++ spec)
       | _, _ => some (st, "bad-op")
     | _, _, _ => some (st, "bad-op")
+  | ["unmbytes", f, aid, tid, hx] =>
+    match parseNat aid, parseNat tid, parseHex hx with
+    | some ai, some ti, some bs =>
+      match st.atlases.lookup ai with
+      | some a => (match mUnmarshal st a f ti bs with
+          | some v => some (st, "M=" ++ showVal v ++ "/ok")
+          | none => some (st, "M=-/err"))
+      | none => some (st, "bad-op")
+    | _, _, _ => some (st, "bad-op")
   | ["remarshal", f, aid, tid, val] =>
     match parseNat aid, parseNat tid with
     | some ai, some ti =>
@@ -440,22 +449,22 @@ def handleObj (st : DState) (parts : List String) : Option (DState × String) :=
     match parseHex hx, parseHex ind with
     | some bs, some indent =>
       let line : Option Bytes := if ln == "nil" then none else parseHex ln
-      -- source: decode one item, keeping the tokens produced before an error
-      let (toks, dok, left0) := if sf == "cbor" then
-          let o := CborDec.decode false (Rd.ofBytes bs); (o.toks, o.res.isOk, o.rd.sourceLeft)
+      -- the lock-step pump model (Model/Pump.lean)
+      let rd0 := Rd.ofBytes bs
+      let fuel := 2 * bs.length + 4
+      let jcfg : JsonEnc.Cfg := ⟨line, indent⟩
+      let res : Pump.Res :=
+        if sf == "cbor" && kf == "json" then
+          Pump.run (Pump.cborSrc false) (JsonEnc.step jcfg FloatText.jsonFloat) fuel CborDec.init rd0 JsonEnc.init []
+        else if sf == "cbor" then
+          Pump.run (Pump.cborSrc false) CborEnc.step fuel CborDec.init rd0 CborEnc.init []
+        else if kf == "json" then
+          Pump.run Pump.jsonSrc (JsonEnc.step jcfg FloatText.jsonFloat) fuel JsonDec.init rd0 JsonEnc.init []
         else
-          let o := JsonDec.decode (Rd.ofBytes bs); (o.toks, o.res.isOk, o.rd.sourceLeft)
-      let (fl, ws) := if kf == "cbor" then runOut CborEnc.step CborEnc.init toks
-                      else runOut (JsonEnc.step ⟨line, indent⟩ FloatText.jsonFloat) JsonEnc.init toks
-      -- lock-step: if the sink stopped early the source was stepped exactly as many times
-      let left := if fl.getLast? != some Flag.cont && fl.length > 0 then
-          (if sf == "cbor" then (CborDec.run false fl.length CborDec.init (Rd.ofBytes bs) [] 0 0).rd.sourceLeft
-           else (JsonDec.run fl.length JsonDec.init (Rd.ofBytes bs) [] 0).rd.sourceLeft)
-        else left0
-      -- pump verdict: ok iff the source finished (dok) and the sink signalled done on that very token
-      let sinkOk := fl.getLast? == some Flag.done && fl.length == toks.length
-      let sinkErr := fl.getLast? == some Flag.err || fl.getLast? == some Flag.panic
-      let cls := if sinkErr then "err" else if dok && sinkOk then "ok" else "err"
+          Pump.run Pump.jsonSrc CborEnc.step fuel JsonDec.init rd0 CborEnc.init []
+      let cls := if res.ok then "ok" else "err"
+      let ws := res.out
+      let left := res.rd.sourceLeft
       let slow :=
         if cls == "ok" then
           (match st.atlases.lookup 0 with
